@@ -114,6 +114,22 @@ func isSupportedSQLVal(val *sqlparser.SQLVal) bool {
 	return false
 }
 
+// normalizeOperandOrder turns <VALUE> = <ColName>, <VALUE> != <ColName> and <VALUE> <=> <ColName> into the same comparison with the
+// column on the left, the only operand order the filter and the observers that rewrite the filtered expressions work with
+func normalizeOperandOrder(expr *sqlparser.ComparisonExpr) {
+	switch expr.Operator {
+	case sqlparser.EqualStr, sqlparser.NotEqualStr, sqlparser.NullSafeEqualStr:
+	default:
+		return
+	}
+	if _, ok := expr.Right.(*sqlparser.ColName); !ok {
+		return
+	}
+	if val, ok := expr.Left.(*sqlparser.SQLVal); ok && isSupportedSQLVal(val) {
+		expr.Left, expr.Right = expr.Right, expr.Left
+	}
+}
+
 // filterColumnEqualComparisonExprs return only <ColName> = <VALUE> or <ColName> != <VALUE> or <ColName> <=> <VALUE> expressions
 func (filter *SearchableQueryFilter) filterColumnEqualComparisonExprs(stmt sqlparser.SQLNode, tableExpr sqlparser.TableExprs) ([]SearchableExprItem, error) {
 	var exprs []SearchableExprItem
@@ -123,6 +139,9 @@ func (filter *SearchableQueryFilter) filterColumnEqualComparisonExprs(stmt sqlpa
 		if !ok {
 			return true, nil
 		}
+
+		// <VALUE> = <ColName> means the same as <ColName> = <VALUE>
+		normalizeOperandOrder(comparisonExpr)
 
 		lColumn, ok := comparisonExpr.Left.(*sqlparser.ColName)
 		if !ok {
